@@ -625,7 +625,9 @@ impl C10 {
                     _ => 1.0,
                 }
                 .max(f64::MIN_POSITIVE);
-                if want.is_finite() {
+                // values beyond the range of the element type overflow to inf legitimately (degree 5 on offsets of 1e4 in f32)
+                let tmax = if case.f32m { f32::MAX as f64 } else { f64::MAX };
+                if want.is_finite() && want.abs() < tmax * 1e-3 && den < tmax * 1e-3 {
                     let err = (got - want).abs() / den;
                     rep.max(if case.f32m { "kernel_closed_form_err_rel_f32" } else { "kernel_closed_form_err_rel_f64" }, err);
                     let allow = rel * (1.0 + case.kernel.degree.abs()) * 8.0;
